@@ -9,6 +9,7 @@ F4(a, b, c, d) == F3(a, b, c) @@ ("q4" :> d)
 Req3 == {"q1", "q2", "q3"}
 PrioA == F3(1, 0, 1)     \* q2 is more urgent
 TtlA == F3(3, 3, 5)
+TtlD == F3(3, 2, 3)     \* q2: urgent, its TTL ends exactly on the first window end when it arrives at 0
 PrioB == F3(0, 0, 0)
 TtlB == F3(2, 4, 3)
 Req4 == {"q1", "q2", "q3", "q4"}
@@ -30,6 +31,8 @@ WitBuffered == ~(\E i \in Req : sig[i] /\ pc[i] = "e2")               \* handed 
 WitTtlVsSignal == ~(\E i \in Req : woke[i] = "ttl" /\ sig[i])        \* the TTL fired and the hand-over came before the re-check
 WitSkipGone == ~(\E i \in Req : gone[i] /\ i \in heap)               \* an abandoned request still in the heap
 
-ViewL == <<now, counter, wend, heap, waitcnt, lock, ts, gated, parked, sig, woke, gone, deadline, res, rollAt, cur, rq, rel, ok, strand, pc, last>>
-View == <<now, counter, wend, heap, waitcnt, lock, ts, gated, parked, sig, woke, gone, deadline, res, rollAt, cur, rq, rel, ok, strand, pc>>
+\* creation stamps of timers only matter for the driver's delivery order: hidden unless Driver
+View == <<now, counter, wend, heap, waitcnt, lock, ts, gated, parked, sig, woke, peek, gone, deadline, res, relWin, rollAt, cur, rq, rel, ok, strand, pc>>
+ViewL == <<View, last>>
+ViewD == <<View, stamp, rollStamp, seq, rev, held>>
 =============================================================================
